@@ -775,7 +775,12 @@ class C19(Prop):
         rr = {i: v for i, v in real['rets'].items() if early(i)}
         if rr != mr:
             return f"operation results: real {sorted(rr.items())} model {sorted(mr.items())}"
-        if not any(o['at'] == stop or ends(i) == stop for i, o in enumerate(case['ops'])):
+        # two driver hooks that raise at the very same instant restore the enabled flag in an order that only the timer
+        # heap decides (observed both ways on the same input): the final flags are not compared then
+        raising_ends = [ends(i) for i, o in enumerate(case['ops'])
+                        if o['op'][0] == 'en' and sc['en' if o['op'][1] else 'dis'][0] and sc['en' if o['op'][1] else 'dis'][1]]
+        tie = len(raising_ends) != len(set(raising_ends))
+        if not tie and not any(o['at'] == stop or ends(i) == stop for i, o in enumerate(case['ops'])):
             for k in ('active', 'enabled', 'expr'):
                 if real[k] is not None and real[k] != model[k]:
                     return f'final {k}: real {real[k]} model {model[k]}'
@@ -847,8 +852,10 @@ class C19(Prop):
                         if lat == 0:
                             enabled = not enabled
                         else:
+                            # two driver hooks that fail at the very same instant put the flag back in an order nothing
+                            # determines (equal timer deadlines): the final flag is not compared then
+                            ambiguous_end = ambiguous_end or due == stop or any(t == due for t, _ in hook_ends)
                             hook_ends.append((due, not enabled))
-                            ambiguous_end = ambiguous_end or due == stop
                 continue
             if ret is None:
                 return Failure('property', f'operation #{i} {op[0]} at {o["at"]} ms never returned'), tags
